@@ -24,9 +24,10 @@ CONSTANTS
   Ops <- mcOps
   Setup <- mcSetup
   ProjOfName <- mcProjOfName
-  Depth = 32
+  Depth = 34
   AttBound = 100
   ViewKeep = {}
+  GenBFS = FALSE
   AckAll = FALSE
   Weights <- mcWeights
 CHECK_DEADLOCK FALSE
